@@ -11,6 +11,7 @@ import RuxModel.Drv.Conc
 import RuxModel.Drv.GoStr
 import RuxModel.Drv.Path
 import RuxModel.Drv.Dispatch
+import RuxModel.Drv.Reg
 /-
   Line-protocol driver: `driver <engine>` reads op lines on stdin and answers one line per op.
   Lines starting with `#` are echoed (they separate cases and carry comments).
@@ -44,7 +45,8 @@ def engines : List (String × Engine) := [
   ("conc", concEngine),
   ("gostr", goStrEngine),
   ("path", pathEngine),
-  ("dispatch", dispatchEngine)
+  ("dispatch", dispatchEngine),
+  ("reg", regEngine)
 ]
 
 def main (args : List String) : IO UInt32 := do
